@@ -4,6 +4,8 @@ import MlModel.Lemmas.Piter2Live
 import MlModel.Lemmas.Piter2Final
 import MlModel.Lemmas.Piter2Data
 import MlModel.Lemmas.Piter2DataEq
+import MlModel.Lemmas.Piter2Incl
+import MlModel.Lemmas.Piter2Multiset
 /-!
 # C13, the two-level composition `piter(iterator_fn, input_iterators=[i_1 … i_n], max_parallism=P)`
 
@@ -57,17 +59,35 @@ pass-through `fwd`):
   EQUALITIES while the task's output queue has neither failed nor been stopped: a producer gives up the value in its
   hand only when `enqueue_done` holds, which — without failure / stop request — cannot happen while a producer is
   inside `put` (producer counting of `Queue.Live`).
-  Missing for the full statement: the composition of the links into ONE multiset statement about the caller's values
-  (it needs both queues, the cache and every hand EMPTY at the end of a run without failure / early stop, and
-  `pulled = all of the input` for every first-level task).
+  (Round 11 composes the links: see below.)
+
+Round 11 (package C13D3; `Lemmas/Piter2Sig/Incl/EndStep/Anat/Close/Close2/Multiset.lean`): the links COMPOSED —
+
+* `C13_two_inclusion` — EVERY run (failures, early stop), every reachable configuration: as multisets
+  delivered ⊆ `iterator_fn` over what the second-level tasks pulled, pulled ⊆ values of all inputs, hence
+  delivered ⊆ `(all input values).flatMap F`: nothing duplicated, nothing invented, at either level;
+* `C13_two_multiset` — runs WITHOUT failure and WITHOUT early stop: in every reachable final configuration whose two
+  queues have no recorded exception / stop request and whose caller was not cut by `num_steps`, the delivered values are
+  a PERMUTATION of `(all input values).flatMap F`, and both queues, the shared cache of `DequeueIterator(Q1)` and both
+  `lost` lists are empty; `C13_two_multiset_quiescent` — the same for every configuration WITHOUT ENABLED STEP under
+  `PoolOK` (through `C13_two_no_deadlock`).  New invariants: `End1` (input queue: `exhausted ⇒ empty`, no `get_batch`
+  drops anything, once a task has seen the end of `Q1` the cache is empty and later calls dequeue nothing, a first-level
+  task past `_stop_enqueue` has read ALL of its input) and `End2` (output queue: the same + a second-level task past
+  `_stop_enqueue` has seen the end of `Q1` and holds no pending output), each conditional on the queue being neither
+  failed nor stopped, proved over the inversion lemmas `step_shape` of `Piter2Anat.lean`.
 
 NOT proved (full statements, kept visible):
-* conservation across both levels: `theorem C13_two_multiset : Reachable F c0 c → c.allDone → delivered outputs of the
-  caller ~ (all input values).flatMap F` (no failure, no early stop) and `… → the caller's StopIteration carries every
-  input generator's return value` (once for a generator `iterator_fn` per task, P times for a pass-through);
+* the return values: `theorem C13_two_returns : Reachable F c0 c → c.allDone → (clean run) → the caller's
+  iterOutcome = some (.stop rets) ∧ rets ~ gens` (generator `iterator_fn`) `/ rets = (replicate P Q1.returned).flatten
+  ∧ Q1.returned ~ inputs.flatMap (ret :: more)` (pass-through: every second-level task forwards
+  `StopIteration(*input_queue.returned)`, so every input return value arrives P times — what the code does);
+* the failure side: `theorem C13_two_failure_surfaces_once : Reachable F c0 c → c.allDone → c.s2.exc.isSome →
+  t0.early = false → ∃ e, t0.iterOutcome = some (.err e)` (the inclusion half of that statement IS `C13_two_inclusion`);
+* the hypotheses of `C13_two_multiset` are on the FINAL configuration (no exception / stop request recorded, `early = false`),
+  not derived from the inputs (`no Item.fail`, `F` total on the values, `num_steps = none`);
 * termination: `theorem C13_two_terminates : ∃ bound, every execution from c0 has at most bound steps` (a variant over
   both queues' `Phi` + per-task cost).
-  Both are covered by exhaustive exploration of small configurations + schedule replay on the real code + the oracle.
+  All covered by exhaustive exploration of small configurations + schedule replay on the real code + the oracle.
 -/
 namespace MlModel.C13
 open MlModel.Piter2
@@ -509,5 +529,104 @@ example : ∃ c, Reachable (Piter.evalFn .ident none)
   obtain ⟨c, hr, hc⟩ := Option.map_eq_some_iff.mp h
   simp only [Prod.mk.injEq, beq_iff_eq] at hc
   exact ⟨c, reachable_run _ _ _ hr, quiescent_of_enabled_nil hc.1, hc.2.1, hc.2.2⟩
+
+/-! ## Round 11 (package C13D3): the links composed -/
+
+/-- **conservation across both levels, every run** (failures of inputs or of `iterator_fn`, early stop, every schedule,
+every reachable configuration — not only final ones): as MULTISETS
+* the values delivered to the caller are part of `iterator_fn`'s outputs over the values the second-level tasks have
+  pulled out of the input queue;
+* the values the second-level tasks have pulled are part of the values of the input iterators `inputs`;
+* hence the delivered values are part of `iterator_fn`'s outputs over all input values.
+`List.Subperm` is multiset inclusion: no value is delivered more often than the sequential evaluation produces it —
+nothing is duplicated, nothing is invented, at either level.  (The composition of `C13_two_output_exactly_once`,
+`_second_level_exactly_once_partial`, `_input_exactly_once`, `_fifo`, `_first_level_exactly_once_partial`.) -/
+theorem C13_two_inclusion {cap1 cap2 bm1 bm2 mw : Nat} {ns : Option Nat} {fwd ff : Bool}
+    {inputs : List InSpec} {gens : List Nat} {c : Piter2.Cfg}
+    (h : Reachable F (initF cap1 cap2 bm1 bm2 mw ns fwd ff inputs gens) c) {t0 : Th} (ht0 : c.ths[0]? = some t0) :
+    (t0.b.received.map (·.2)).Subperm ((c.ths.map pulled2).flatten.flatMap (Fp F)) ∧
+    (c.ths.map pulled2).flatten.Subperm (inputs.flatMap fun i => valsOf i.items) ∧
+    (t0.b.received.map (·.2)).Subperm ((inputs.flatMap fun i => valsOf i.items).flatMap (Fp F)) := by
+  obtain ⟨hperm, hsub⟩ := C13_two_second_level_exactly_once_partial h ht0
+  obtain ⟨hprod, hsub1⟩ := C13_two_first_level_exactly_once_partial h
+  have h1 := delivered_subperm (F := F) hperm hsub
+  have h2 := pulled_subperm (C13_two_fifo h).1 (C13_two_input_exactly_once h) hprod hsub1
+  rw [inVals_reachable h] at h2
+  exact ⟨h1, h2, h1.trans (subperm_flatMap _ h2)⟩
+
+/-- test (by `decide`), non-vacuity: a complete run of two inputs through one `iterator_fn` task; the caller has
+received both values -/
+example : ∃ c t0, Reachable (Piter.evalFn .ident none)
+      (initF 1 1 1 2 3 none false true [⟨[.val 1], 900, []⟩, ⟨[.val 2], 901, []⟩] [800]) c ∧
+      c.ths[0]? = some t0 ∧ (t0.b.received.map (·.2)).length = 2 := by
+  have h : ((run (Piter.evalFn .ident none)
+      (initF 1 1 1 2 3 none false true [⟨[.val 1], 900, []⟩, ⟨[.val 2], 901, []⟩] [800])
+      (List.replicate 10 0 ++ List.replicate 17 1 ++ List.replicate 7 2 ++ List.replicate 13 3 ++ List.replicate 23 2 ++
+        List.replicate 9 3 ++ List.replicate 18 0 ++ List.replicate 22 3 ++ List.replicate 18 0 ++ List.replicate 14 3 ++
+        List.replicate 6 0 ++ List.replicate 7 3 ++ [0])).map fun c =>
+          c.ths[0]?.map fun t => (t.b.received.map (·.2)).length) = some (some 2) := by
+    decide +kernel
+  obtain ⟨c, hr, hc⟩ := Option.map_eq_some_iff.mp h
+  obtain ⟨t0, ht0, hl⟩ := Option.map_eq_some_iff.mp hc
+  exact ⟨c, t0, reachable_run _ _ _ hr, ht0, hl⟩
+
+/-- **conservation across both levels, runs without failure and without early stop** (every schedule, every number of
+inputs and of `iterator_fn` tasks ≥ 1, every capacity of both queues, every batch size of both `DequeueIterator`s, any
+pool, generator or pass-through `iterator_fn`): in a reachable FINAL configuration (caller past `shutdown()`, every task
+of both levels at its end — by `C13_two_no_deadlock` these are exactly the configurations without enabled step when the
+pool satisfies `PoolOK`) in which neither queue has a recorded exception or a stop request and the caller's iteration
+was not cut by `num_steps`,
+* the values delivered to the caller are a PERMUTATION of `iterator_fn`'s outputs over the values of ALL input
+  iterators (`(inputs.flatMap values).flatMap F`: flat-map for a generator `iterator_fn`, the identity for a pass-through);
+* nothing is left anywhere: both queues are empty, the shared cache of `DequeueIterator(Q1)` is empty, neither queue
+  has dropped an element.
+Proof: the links of the chain (`C13_two_fifo`, `_output_exactly_once`, `_second_level_exact`, `_input_exactly_once`,
+`_first_level_exact`) + the end-of-run invariants `End1` / `End2` (`Lemmas/Piter2Close.lean`, `Piter2Close2.lean`):
+while a queue is neither failed nor stopped, `exhausted ⇒ queue empty`, no `get_batch` drops anything, once a task has
+seen the `StopIteration` of the input queue the cache is empty and later `get_batch` calls dequeue nothing, a
+first-level task past `_stop_enqueue` has read all of its input, a second-level task past `_stop_enqueue` holds no
+pending output. -/
+theorem C13_two_multiset {cap1 cap2 bm1 bm2 mw : Nat} {ns : Option Nat} {fwd ff : Bool}
+    {inputs : List InSpec} {gens : List Nat} {c : Piter2.Cfg} (hgen : gens ≠ [])
+    (h : Reachable F (initF cap1 cap2 bm1 bm2 mw ns fwd ff inputs gens) c) (hdone : c.allDone = true)
+    (hexc1 : c.s1.exc = none) (hstop1 : c.s1.stopRequested = false)
+    (hexc2 : c.s2.exc = none) (hstop2 : c.s2.stopRequested = false)
+    {t0 : Th} (ht0 : c.ths[0]? = some t0) (hearly : t0.early = false) :
+    List.Perm (t0.b.received.map (·.2)) ((inputs.flatMap fun i => valsOf i.items).flatMap (Fp F)) ∧
+    c.s1.q = [] ∧ c.s2.q = [] ∧ c.cache = [] ∧ c.s1.lost = [] ∧ c.s2.lost = [] :=
+  two_multiset hgen h hdone ⟨hexc1, hstop1⟩ ⟨hexc2, hstop2⟩ ht0 hearly
+    (C13_two_second_level_exactly_once_partial h ht0).1 (C13_two_input_exactly_once h) (C13_two_fifo h).1
+
+/-- the same for every reachable configuration WITHOUT ENABLED STEP, under the pool condition of
+`C13_two_no_deadlock`: a run without failure and early stop cannot end in any other way than with the caller holding a
+permutation of the sequential result. -/
+theorem C13_two_multiset_quiescent {cap1 cap2 bm1 bm2 mw : Nat} {ns : Option Nat} {fwd ff : Bool}
+    {inputs : List InSpec} {gens : List Nat} {c : Piter2.Cfg} (hin : inputs ≠ []) (hgen : gens ≠ [])
+    (hpool : PoolOK inputs.length gens.length (initF cap1 cap2 bm1 bm2 mw ns fwd ff inputs gens))
+    (h : Reachable F (initF cap1 cap2 bm1 bm2 mw ns fwd ff inputs gens) c) (hq : c.quiescent F)
+    (hexc1 : c.s1.exc = none) (hstop1 : c.s1.stopRequested = false)
+    (hexc2 : c.s2.exc = none) (hstop2 : c.s2.stopRequested = false)
+    {t0 : Th} (ht0 : c.ths[0]? = some t0) (hearly : t0.early = false) :
+    List.Perm (t0.b.received.map (·.2)) ((inputs.flatMap fun i => valsOf i.items).flatMap (Fp F)) :=
+  (C13_two_multiset hgen h (C13_two_no_deadlock hin hgen hpool h hq) hexc1 hstop1 hexc2 hstop2 ht0 hearly).1
+
+/-- test (by `decide`), non-vacuity of the hypotheses of `C13_two_multiset`: the complete run of the example above ends
+in a final configuration without exception, stop request or early stop -/
+example : ∃ c t0, Reachable (Piter.evalFn .ident none)
+      (initF 1 1 1 2 3 none false true [⟨[.val 1], 900, []⟩, ⟨[.val 2], 901, []⟩] [800]) c ∧
+      c.allDone = true ∧ c.s1.exc = none ∧ c.s1.stopRequested = false ∧ c.s2.exc = none ∧
+      c.s2.stopRequested = false ∧ c.ths[0]? = some t0 ∧ t0.early = false := by
+  have h : ((run (Piter.evalFn .ident none)
+      (initF 1 1 1 2 3 none false true [⟨[.val 1], 900, []⟩, ⟨[.val 2], 901, []⟩] [800])
+      (List.replicate 10 0 ++ List.replicate 17 1 ++ List.replicate 7 2 ++ List.replicate 13 3 ++ List.replicate 23 2 ++
+        List.replicate 9 3 ++ List.replicate 18 0 ++ List.replicate 22 3 ++ List.replicate 18 0 ++ List.replicate 14 3 ++
+        List.replicate 6 0 ++ List.replicate 7 3 ++ [0])).map fun c =>
+          (c.allDone, c.s1.exc.isNone, c.s1.stopRequested, c.s2.exc.isNone, c.s2.stopRequested,
+            c.ths[0]?.map (·.early))) =
+      some (true, true, false, true, false, some false) := by decide +kernel
+  obtain ⟨c, hr, hc⟩ := Option.map_eq_some_iff.mp h
+  simp only [Prod.mk.injEq, Option.map_eq_some_iff, Option.isNone_iff_eq_none] at hc
+  obtain ⟨h1, h2, h3, h4, h5, t0, ht0, h6⟩ := hc
+  exact ⟨c, t0, reachable_run _ _ _ hr, h1, h2, h3, h4, h5, ht0, h6⟩
 
 end MlModel.C13
